@@ -104,6 +104,8 @@ fn tags_out(op: &Op, exp: &AOut, got: &AOut) -> Vec<&'static str> {
     use Op::*;
     let success_differs = matches!(exp, AOut::None | AOut::Err(_)) != matches!(got, AOut::None | AOut::Err(_));
     let mut t = vec![];
+    // granted although nothing (or not that much) is available to this iterator: the slots belong to another stage (C03: one iterator at a time)
+    if matches!(exp, AOut::None | AOut::Err(_)) && !matches!(got, AOut::None | AOut::Err(_)) { t.push("C03"); }
     match op {
         Avail(_) => t.push("C05"),
         Pop | PopM | Copy | Clone | Peek => { if success_differs { t.push("C05"); t.push("C04"); } else { t.push("C01"); } }
@@ -244,6 +246,10 @@ fn session<'b, B: MutRB<Item = T>, T: ClonePush, const W: bool>(
     ctx: &mut Ctx, pending: Option<Op>, last: Option<Obs>,
 ) -> (End, Obs) {
     let mut s = Sess::<B, T, W>::new(p, w, c, last);
+    if s.len != ctx.oracle.len {
+        ctx.failures.push(Failure { kind: "oracle", tags: vec!["C18"], step: ctx.executed.len(), op: "<split>".into(),
+            detail: format!("buf_len() is {} for a buffer constructed with {} slots", s.len, ctx.oracle.len) });
+    }
     if let Some(op) = pending {
         // the re-split itself is the operation being observed
         let obs = s.last.clone();
